@@ -95,3 +95,194 @@ Proof.
   assert (y <= x * (11 # 10)) by nra. assert (z <= y * (11 # 10)) by nra. nra.
 Qed.
 Local Close Scope Q_scope.
+
+(* ---------- the level search on exponents that lie between the old ones and the rounded-out ones ---------- *)
+Section Fixed2.
+Variables (e e' : logexp) (o : tickopts) (l : Z).
+Hypothesis Hlh : le_out_lo e < le_out_hi e.
+Hypothesis H0 : log_count e true 0 <= MAXINT.
+Hypothesis Hmax : o_max o < MAXINT.
+Hypothesis Hl : find_level o (log_count e true) 0 = FL_ok l.
+Let f := fst (log_first_last e true l).
+Let la := snd (log_first_last e true l).
+(* e' = the exponents of the niced domain: each end on the power Nice rounded out to, or where it was *)
+Hypothesis Hlo' : f * 2 ^ l <= le_out_lo e' <= le_out_lo e.
+Hypothesis Hhi' : le_out_hi e <= le_out_hi e' <= la * 2 ^ l.
+Hypothesis H0' : log_count e' true 0 <= MAXINT.
+
+Lemma e'_lt2 : le_out_lo e' < le_out_hi e'.
+Proof. lia. Qed.
+
+Lemma first_last_e'2 : log_first_last e' true l = (f, la).
+Proof.
+  pose proof (level_nonneg e o l Hlh H0 Hmax Hl) as Ln. pose proof (pow2_pos l Ln) as K.
+  destruct (f_la e o l Hlh H0 Hmax Hl) as (Ef & Ela & _). fold f la in Ef, Ela.
+  unfold log_first_last. f_equal.
+  - apply Z.le_antisymm.
+    + rewrite Ef. apply Z.div_le_mono; lia.
+    + apply fdiv_iff; [exact K | lia].
+  - apply Z.le_antisymm.
+    + apply cdiv_iff; [exact K | lia].
+    + rewrite Ela. apply cdiv_iff; [exact K|].
+      pose proof (proj1 (cdiv_iff (le_out_hi e') (2 ^ l) (cdiv (le_out_hi e') (2 ^ l)) K) ltac:(lia)). lia.
+Qed.
+
+Lemma count_e'_ge2 j : 0 <= j -> log_count e true j <= log_count e' true j.
+Proof.
+  intros Hj. unfold log_count, log_first_last.
+  replace (j <? 0) with false by (symmetry; apply Z.ltb_ge; lia).
+  pose proof (pow2_pos j Hj) as Kj.
+  assert (A : le_out_lo e' / 2 ^ j <= le_out_lo e / 2 ^ j) by (apply Z.div_le_mono; lia).
+  assert (B : cdiv (le_out_hi e) (2 ^ j) <= cdiv (le_out_hi e') (2 ^ j)).
+  { apply cdiv_iff; [exact Kj|].
+    pose proof (proj1 (cdiv_iff (le_out_hi e') (2 ^ j) (cdiv (le_out_hi e') (2 ^ j)) Kj) ltac:(lia)). lia. }
+  lia.
+Qed.
+
+Theorem find_level_niced2 : find_level o (log_count e' true) 0 = FL_ok l.
+Proof.
+  destruct (level_bounds o) as [[lo hi]|] eqn:Hb; [|unfold find_level in Hl; rewrite Hb in Hl; discriminate].
+  pose proof (find_level_lowest o _ 0 lo hi l Hb (log_count_out_nonincreasing e Hlh lo hi H0) Hl) as (Lb & Fit & Low).
+  pose proof (level_nonneg e o l Hlh H0 Hmax Hl) as Ln.
+  destruct (f_la e o l Hlh H0 Hmax Hl) as (Ef & Ela & Lt). fold f la in Ef, Ela, Lt.
+  assert (Fit2 : la - f + 1 <= o_max o).
+  { unfold log_count in Fit. replace (l <? 0) with false in Fit by (symmetry; apply Z.ltb_ge; lia).
+    unfold log_first_last in Fit. rewrite <- Ef, <- Ela in Fit. exact Fit. }
+  apply (find_level_is_lowest o _ 0 lo hi l Hb (log_count_out_nonincreasing e' e'_lt2 lo hi H0') ltac:(lia) Lb).
+  - unfold log_count. replace (l <? 0) with false by (symmetry; apply Z.ltb_ge; lia).
+    rewrite first_last_e'2. exact Fit2.
+  - intros j Hj. specialize (Low j Hj). destruct (Z_lt_le_dec j 0) as [G|G].
+    + unfold log_count. replace (j <? 0) with true by (symmetry; apply Z.ltb_lt; lia). exact Hmax.
+    + pose proof (count_e'_ge2 j G). lia.
+Qed.
+End Fixed2.
+
+(* ---------- the exponents of log_exps, one field at a time ---------- *)
+Definition isin3 (n : near3) : bool := match n with N_inside => true | _ => false end.
+Lemma log_exps_out_lo b a c : le_out_lo (log_exps b a c) =
+  if isin3 (near a (qpow b (ceil_log b a)) (c / a) (log_mu a c)) then ceil_log b a else floor_log b a.
+Proof. reflexivity. Qed.
+Lemma log_exps_out_hi b a c : le_out_hi (log_exps b a c) =
+  if isin3 (near (qpow b (floor_log b c)) c (c / a) (log_mu a c)) then floor_log b c else ceil_log b c.
+Proof. reflexivity. Qed.
+Lemma log_exps_in_lo b a c : le_in_lo (log_exps b a c) =
+  if isin3 (near (qpow b (floor_log b a)) a (c / a) (log_mu a c)) then floor_log b a else ceil_log b a.
+Proof. reflexivity. Qed.
+Lemma log_exps_in_hi b a c : le_in_hi (log_exps b a c) =
+  if isin3 (near c (qpow b (ceil_log b c)) (c / a) (log_mu a c)) then ceil_log b c else floor_log b c.
+Proof. reflexivity. Qed.
+Lemma log_exps_amb_false b a c : le_amb (log_exps b a c) = false ->
+  near (qpow b (floor_log b a)) a (c / a) (log_mu a c) <> N_border /\
+  near c (qpow b (ceil_log b c)) (c / a) (log_mu a c) <> N_border /\
+  near a (qpow b (ceil_log b a)) (c / a) (log_mu a c) <> N_border /\
+  near (qpow b (floor_log b c)) c (c / a) (log_mu a c) <> N_border.
+Proof.
+  unfold log_exps. cbn [le_amb]. intros H.
+  destruct (near (qpow b (floor_log b a)) a _ _), (near c (qpow b (ceil_log b c)) _ _),
+    (near a (qpow b (ceil_log b a)) _ _), (near (qpow b (floor_log b c)) c _ _); cbn in H; try discriminate;
+    repeat split; discriminate.
+Qed.
+
+Lemma out_lo_pow b n c : 2 <= b -> le_out_lo (log_exps b (qpow b n) c) = n.
+Proof. intros Hb. rewrite log_exps_out_lo, floor_log_pow, ceil_log_pow by exact Hb. now destruct (isin3 _). Qed.
+Lemma out_hi_pow b a n : 2 <= b -> le_out_hi (log_exps b a (qpow b n)) = n.
+Proof. intros Hb. rewrite log_exps_out_hi, floor_log_pow, ceil_log_pow by exact Hb. now destruct (isin3 _). Qed.
+Lemma in_lo_pow b n c : 2 <= b -> le_in_lo (log_exps b (qpow b n) c) = n.
+Proof. intros Hb. rewrite log_exps_in_lo, floor_log_pow, ceil_log_pow by exact Hb. now destruct (isin3 _). Qed.
+Lemma in_hi_pow b a n : 2 <= b -> le_in_hi (log_exps b a (qpow b n)) = n.
+Proof. intros Hb. rewrite log_exps_in_hi, floor_log_pow, ceil_log_pow by exact Hb. now destruct (isin3 _). Qed.
+
+(* an end that stays where it is, with an INSIDE decision, keeps the decision when the domain grows
+   and the new decision is not undecided *)
+Lemma out_lo_keep b emin emax c : 2 <= b -> (0 < emin)%Q -> (emin < emax)%Q -> (emax <= c)%Q ->
+  near emin (qpow b (ceil_log b emin)) (emax / emin) (log_mu emin emax) = N_inside ->
+  le_amb (log_exps b emin c) = false ->
+  near emin (qpow b (ceil_log b emin)) (c / emin) (log_mu emin c) = N_inside.
+Proof.
+  intros Hb P Lt Lc Hin Amb. destruct (log_exps_amb_false b emin c Amb) as (_ & _ & N3 & _).
+  destruct (ceil_log_spec b emin Hb P) as [_ U].
+  pose proof (near_inside_mono emin (qpow b (ceil_log b emin)) (emax / emin) (log_mu emin emax) (c / emin) (log_mu emin c)
+    P U (q_div_pos emax emin ltac:(lra) P) (q_div_le_mono emin emin emax c P ltac:(lra) ltac:(lra) Lc)
+    (log_mu_pos _ _) (log_mu_pos _ _) Hin) as N.
+  destruct (near emin (qpow b (ceil_log b emin)) (c / emin) (log_mu emin c)); congruence.
+Qed.
+Lemma out_hi_keep b emin emax a : 2 <= b -> (0 < a)%Q -> (a <= emin)%Q -> (emin < emax)%Q ->
+  near (qpow b (floor_log b emax)) emax (emax / emin) (log_mu emin emax) = N_inside ->
+  le_amb (log_exps b a emax) = false ->
+  near (qpow b (floor_log b emax)) emax (emax / a) (log_mu a emax) = N_inside.
+Proof.
+  intros Hb P La Lt Hin Amb. destruct (log_exps_amb_false b a emax Amb) as (_ & _ & _ & N4).
+  destruct (floor_log_spec b emax Hb ltac:(lra)) as [L _].
+  pose proof (near_inside_mono (qpow b (floor_log b emax)) emax (emax / emin) (log_mu emin emax) (emax / a) (log_mu a emax)
+    (qpow_pos b _ ltac:(lia)) L (q_div_pos emax emin ltac:(lra) ltac:(lra)) (q_div_le_mono a emin emax emax P La ltac:(lra) ltac:(lra))
+    (log_mu_pos _ _) (log_mu_pos _ _) Hin) as N.
+  destruct (near (qpow b (floor_log b emax)) emax (emax / a) (log_mu a emax)); congruence.
+Qed.
+
+(* ---------- Nice twice, with ends that may have been left in place ---------- *)
+(* [mvlo]/[mvhi]: did the first Nice move the lower / upper end (log.go:233, 236)?  An end that was
+   left in place must have been within the slack of the power next to it (decision N_inside: the
+   D10 situation), and no slack decision of the niced domain may be undecided. *)
+Lemma log_nice_core b emin emax o l (mvlo mvhi : bool) a c : 2 <= b -> (0 < emin)%Q -> (emin < emax)%Q ->
+  let e := log_exps b emin emax in
+  le_out_lo e < le_out_hi e -> log_count e true 0 <= MAXINT -> o_max o < MAXINT ->
+  find_level o (log_count e true) 0 = FL_ok l ->
+  let f := fst (log_first_last e true l) in let la := snd (log_first_last e true l) in
+  (la * 2 ^ l - f * 2 ^ l + 1 <= MAXINT) ->
+  let nmn := qpow b (f * 2 ^ l) in let nmx := qpow b (la * 2 ^ l) in
+  mvlo = log_end_ok b (2 ^ l) f nmn && Qleb nmn emin ->
+  mvhi = log_end_ok b (2 ^ l) la nmx && Qleb emax nmx ->
+  a = (if mvlo then nmn else emin) -> c = (if mvhi then nmx else emax) ->
+  (mvlo = false -> near emin (qpow b (ceil_log b emin)) (emax / emin) (log_mu emin emax) = N_inside) ->
+  (mvhi = false -> near (qpow b (floor_log b emax)) emax (emax / emin) (log_mu emin emax) = N_inside) ->
+  le_amb (log_exps b a c) = false ->
+  let e' := log_exps b a c in
+  ((0 < a)%Q /\ (a <= emin)%Q /\ (emax <= c)%Q) /\
+  (f * 2 ^ l <= le_out_lo e' <= le_out_lo e /\ le_out_hi e <= le_out_hi e' <= la * 2 ^ l) /\
+  log_nice b emin emax o = (a, c) /\ log_nice b a c o = (a, c).
+Proof.
+  intros Hb P Lt e Hlh H0 Hmax Hl f la Hcnt nmn nmx Elo Ehi Ea Ec Ilo Ihi Amb e'.
+  pose proof (level_nonneg e o l Hlh H0 Hmax Hl) as Ln. pose proof (pow2_pos l Ln) as K.
+  destruct (f_la e o l Hlh H0 Hmax Hl) as (Ef & Ela & Flt). fold f la in Ef, Ela, Flt.
+  assert (Fk : f * 2 ^ l <= le_out_lo e) by (apply fdiv_iff; [exact K | lia]).
+  assert (Lk : le_out_hi e <= la * 2 ^ l) by (apply cdiv_iff; [exact K | lia]).
+  pose proof (qpow_pos b (f * 2 ^ l) ltac:(lia)) as Pn. fold nmn in Pn.
+  assert (Aa : (0 < a)%Q /\ (a <= emin)%Q).
+  { destruct mvlo; subst a; [|split; lra]. symmetry in Elo. apply andb_true_iff in Elo. destruct Elo as [_ Q1].
+    gb_bool. split; lra. }
+  assert (Cc : (emax <= c)%Q).
+  { destruct mvhi; subst c; [|lra]. symmetry in Ehi. apply andb_true_iff in Ehi. destruct Ehi as [_ Q1].
+    gb_bool. exact Q1. }
+  destruct Aa as [Pa La]. assert (Ac : (a < c)%Q) by lra.
+  assert (Hlo' : f * 2 ^ l <= le_out_lo e' <= le_out_lo e).
+  { unfold e'. destruct mvlo; subst a.
+    - unfold nmn. rewrite out_lo_pow by exact Hb. lia.
+    - specialize (Ilo eq_refl). pose proof (out_lo_keep b emin emax c Hb P Lt Cc Ilo Amb) as N3.
+      rewrite log_exps_out_lo, N3. unfold e in Fk |- *. rewrite log_exps_out_lo, Ilo in Fk |- *. cbn [isin3] in *. lia. }
+  assert (Hhi' : le_out_hi e <= le_out_hi e' <= la * 2 ^ l).
+  { unfold e'. destruct mvhi; subst c.
+    - unfold nmx. rewrite out_hi_pow by exact Hb. lia.
+    - specialize (Ihi eq_refl). pose proof (out_hi_keep b emin emax a Hb Pa La Lt Ihi Amb) as N4.
+      rewrite log_exps_out_hi, N4. unfold e in Lk |- *. rewrite log_exps_out_hi, Ihi in Lk |- *. cbn [isin3] in *. lia. }
+  assert (H0' : log_count e' true 0 <= MAXINT).
+  { unfold log_count, log_first_last. cbn [Z.ltb Z.compare]. change (2 ^ 0) with 1.
+    rewrite Z.div_1_r. unfold cdiv. rewrite Z.div_1_r. lia. }
+  pose proof (find_level_niced2 e e' o l Hlh H0 Hmax Hl Hlo' Hhi' H0') as F.
+  pose proof (first_last_e'2 e e' o l Hlh H0 Hmax Hl Hlo' Hhi') as FL. fold f la in FL.
+  assert (FLe : log_first_last e true l = (f, la)) by (unfold f, la; destruct (log_first_last e true l); reflexivity).
+  split; [repeat split; assumption|]. split; [split; assumption|]. split.
+  - unfold log_nice, log_nice_gen.
+    destruct (Qeqb emin emax) eqn:E1; [gb_bool; lra|].
+    unfold log_fold. destruct (Qltb emin 0) eqn:E2; [gb_bool; lra|].
+    fold e. rewrite Hl, FLe. fold nmn nmx. rewrite <- Elo, <- Ehi, <- Ea, <- Ec. reflexivity.
+  - unfold log_nice, log_nice_gen.
+    destruct (Qeqb a c) eqn:E1; [gb_bool; lra|].
+    unfold log_fold. destruct (Qltb a 0) eqn:E2; [gb_bool; lra|].
+    fold e'. rewrite F, FL. fold nmn nmx. f_equal.
+    + destruct mvlo; subst a.
+      * match goal with |- (if ?x then _ else _) = _ => destruct x end; reflexivity.
+      * rewrite <- Elo. reflexivity.
+    + destruct mvhi; subst c.
+      * match goal with |- (if ?x then _ else _) = _ => destruct x end; reflexivity.
+      * rewrite <- Ehi. reflexivity.
+Qed.
